@@ -387,9 +387,10 @@ LAYOUT_FILES = [
     "PROJ/app/main.py", "PROJ/pkg/__init__.py", "PROJ/pkg/sub/deep/leaf.py", "PROJ/pkg/sub/__init__.py", "PROJ/lib/python3.12/notlib.py", "PROJ/site-packages/mine.py",
     "PROJ/json.py", "PROJ/requests/__init__.py", "LNK_PURE/requests/api.py", "LNK_STD/os.py", "PROJ/vendored/six.py", "PURE/editable/mod.py", "LNK_PROJ/app/main.py",
     "PROJ2/pkg/sub/deep/leaf.py", "PROJ/app/../app/main.py", "PURE/../site-packages/six.py",
+    "PROJ/vendored_six.py", "PROJ/app/stdos.py", "PURE/mine_link.py",
 ]
 SYNTHETIC = ["<string>", "<frozen importlib._bootstrap>", "", "<stdin>", "rel/x.py", "<doctest foo[0]>"]
-LAYOUT_ALLOW = ["pkg", "requests", "six", "app", "leaf", "json", "deep", "main", "nosuch", "numpy", "sub"]
+LAYOUT_ALLOW = ["pkg", "requests", "six", "app", "leaf", "json", "deep", "main", "nosuch", "numpy", "sub", "CWDNAME"]
 
 
 def gen_layout(rng):
@@ -404,6 +405,8 @@ def gen_layout(rng):
         else:
             queries.append({"file": rng.choice(LAYOUT_FILES), "src": src})
     allow = rng.sample(LAYOUT_ALLOW, rng.choice([1, 2, 3])) if rng.random() < 0.45 else None
+    if allow:
+        allow = [os.path.basename(os.getcwd()) if a == "CWDNAME" else a for a in allow]
     return {"mode": "layout", "same_purelib_platlib": same_purelib_platlib, "queries": queries, "allow": allow,
             "std_is_symlink": rng.random() < 0.3, "trailing_slash": rng.random() < 0.3}
 
@@ -439,6 +442,11 @@ def build_layout(base, plan):
     }
     for name, (lnk, target) in links.items():
         os.symlink(target, lnk)
+    for fn in (os.path.join(pure, "six.py"), os.path.join(std, "os.py"), os.path.join(proj, "app", "mine.py")):
+        open(fn, "w").close()
+    os.symlink(os.path.join(pure, "six.py"), os.path.join(proj, "vendored_six.py"))   # the FILE is a symlink into site-packages
+    os.symlink(os.path.join(std, "os.py"), os.path.join(proj, "app", "stdos.py"))      # ... into the stdlib
+    os.symlink(os.path.join(proj, "app", "mine.py"), os.path.join(pure, "mine_link.py"))  # site-packages file -> project file
     os.symlink(os.path.join(pure, "vend"), os.path.join(proj, "vendored"))         # project dir -> into site-packages
     os.symlink(os.path.join(proj, "pkg"), os.path.join(pure, "editable"))           # site-packages -> out to the project
     std_root = std
